@@ -410,3 +410,76 @@ def check_ops(ctx, fn, ops, groups, atoms, oid, text):
                 left.remove(hit)
     ctx.ob(oid, "SEQUENCE", text, ok, "%s:%s" % (fn.file, ops[0].line) if ops else fn.where, None if ok else detail)
     return ok
+
+
+# ---------------------------------------------------------------------------------------------- loops in either spelling (range-for / counting loop)
+def _plain(subst):
+    return {k: v for k, v in (subst or {}).items() if k != "@idx"}
+
+
+def loop_info(fn, lp, subst):
+    """Describe a loop independent of its spelling.  kind: 'each' (range-for) | 'index' (for (T v = S; v < R.size(); ++v)) | 'other';
+    range: canonical text of R; var: loop variable; start: text of S ('0' for range-for); cond: the canonical loop-condition atom of an
+    index loop; complete: no break, and for an index loop step +1 over an index that the body never writes."""
+    k = lp.get("k")
+    s0 = _plain(subst)
+    if k == "foreach":
+        v = lp.get("var") or {}
+        return dict(kind="each", range=F.key(F.expand(lp.get("range"), s0)), var=v.get("n"), start="0", cond=None, complete=not has_break(lp.get("b")), loop=lp)
+    if k == "for":
+        var, start, cond, inc = for_shape(lp, s0)
+        c = lp.get("c")
+        if var and is_expr(c) and c[0] == "b" and c[1] == "<" and match(["local", var], c[2]) and is_expr(c[3]) and c[3][0] in ("mcall", "vcall") and len(c[3]) == 3 \
+                and c[3][1].endswith("::size"):
+            s1 = {k2: v2 for k2, v2 in s0.items() if k2 != var}
+            rng = F.key(F.expand(c[3][2], s1))
+            complete = inc in ("%s++" % var, "++%s" % var) and not has_break(lp.get("b")) and not [w for w in writes_to_local(fn, var) if w[1] not in ("post++", "++")] \
+                and len([w for w in writes_to_local(fn, var)]) == len([1 for l2 in loops_in(fn, "for") if for_shape(l2, s0)[0] == var])
+            return dict(kind="index", range=rng, var=var, start=start, cond="%s < %s.size()" % (var, rng), complete=complete, loop=lp)
+    return dict(kind="other", range=None, var=None, start=None, cond=None, complete=False, loop=lp)
+
+
+def elem_rx(info, deref=False):
+    """Regex for 'the current element' of the loop in canonical terms: each(R) (range-for, or a counting loop the engine normalised) or R[v]."""
+    r = re.escape(info["range"] or "?")
+    alts = [r"each\(" + r + r"\)"]
+    if info["kind"] == "index":
+        alts.append(r + r"\[" + re.escape(info["var"]) + r"\]")
+    return r"(?:" + "|".join(alts) + r")"
+
+
+def loop_key_rx(info):
+    """Regex accepting the engine's range key of this loop in either spelling."""
+    r = re.escape(info["range"] or "?")
+    alts = [r"each\(" + r + r"\)"]
+    if info["kind"] == "index":
+        alts.append(r"for\(" + re.escape(info["start"] or "?") + r"; " + re.escape(info["cond"]) + r"\)")
+    return r"(?:" + "|".join(alts) + r")"
+
+
+def drop_loop_conds(f, infos):
+    """Inside a complete index loop its condition `v < R.size()` holds, behind it the negation holds: both are spelling artefacts of the
+    counting form (a range-for has neither), so they are set to true for *complete* loops only."""
+    for info in infos:
+        if info.get("kind") == "index" and info.get("complete") and info.get("cond"):
+            f = _drop_both(f, info["cond"])
+    return f
+
+
+def _drop_both(f, key):
+    t = f[0]
+    if t == "atom":
+        return F.T if f[1] == key else f
+    if t == "not":
+        if f[1][0] == "atom" and f[1][1] == key:
+            return F.T
+        return F.mk_not(_drop_both(f[1], key))
+    if t == "and":
+        return F.mk_and([_drop_both(x, key) for x in f[1]])
+    if t == "or":
+        return F.mk_or([_drop_both(x, key) for x in f[1]])
+    return f
+
+
+def all_loop_infos(fn, subst):
+    return [loop_info(fn, lp, subst) for lp in loops_in(fn) if lp.get("k") in ("for", "foreach")]
